@@ -140,6 +140,12 @@ func RunPost(prog []*lang.N, post []string, budget int) (out Outcome) {
 	_ = c
 	if rs == nil {
 		for _, name := range post {
+			chain, surplus := strings.HasSuffix(name, "!"), strings.HasSuffix(name, "?")
+			name = strings.TrimRight(name, "!?")
+			if surplus {
+				in.Log = append(in.Log, "#host refused")
+				continue
+			}
 			cell := in.globals.vars[name]
 			if cell == nil {
 				panic("refsem: post call of unknown global " + name)
@@ -151,8 +157,24 @@ func RunPost(prog []*lang.N, post []string, budget int) (out Outcome) {
 			pv, pr := in.call(cell.V, args)
 			if pr != nil {
 				in.Log = append(in.Log, "#host error "+pr.E.Class)
+			} else if _, isFn := pv.(*Fn); isFn {
+				in.Log = append(in.Log, "#host function")
 			} else {
 				in.Log = append(in.Log, "#host "+Show(pv))
+			}
+			if inner, ok := pv.(*Fn); ok && chain && pr == nil {
+				for k := 0; k < 2; k++ {
+					var a2 []Val
+					if len(inner.N.Params) > 0 {
+						a2 = []Val{int64(0)}
+					}
+					v2, r2 := in.call(inner, a2)
+					if r2 != nil {
+						in.Log = append(in.Log, "#host error "+r2.E.Class)
+					} else {
+						in.Log = append(in.Log, "#host "+Show(v2))
+					}
+				}
 			}
 		}
 	}
